@@ -2,7 +2,7 @@
    build_outline on a table holding forest f, the README's attach step, then get_toc: the result is
    the preorder of f (titles, level = depth + 1, page numbers), with explicit fuel bounds for both
    recursions.  Main results: [attach_catalog], [reads_back_forest], [reads_back_ops]. *)
-From LV Require Import Base.Bytes Model.Obj Model.DocQ Model.PageTree Model.Outline Model.Toc
+From LV Require Import Base.Bytes Model.Obj Model.DocQ Model.PageTree Model.Outline Model.Toc Gen.QueryC
   Spec.OutlineSpec Proofs.OutlineProofs Proofs.OutlineProofsTitle Proofs.OutlineProofsRead
   Proofs.OutlineProofsOps.
 
@@ -118,6 +118,29 @@ Proof.
   - apply IH. intros a b Ha Hb. apply Hinj; right; assumption.
 Qed.
 
+(* ---------- counting objects ---------- *)
+Lemma lookup_In m id o : lookup m id = Some o -> In (id, o) m.
+Proof.
+  induction m as [|[i o'] m IH]; cbn [lookup]; [discriminate|].
+  destruct (oid_eqb i id) eqn:E.
+  - apply oid_eqb_eq in E. subst. intro H. inversion H. left. reflexivity.
+  - intro H. right. apply IH. exact H.
+Qed.
+
+Lemma length_ge_ids (m : objmap) (ids : list oid) :
+  NoDup ids -> (forall id, In id ids -> lookup m id <> None) -> (length ids <= length m)%nat.
+Proof.
+  intros Hnd Hall. rewrite <- (map_length fst m). apply NoDup_incl_length; [exact Hnd|].
+  intros id Hin. specialize (Hall id Hin). destruct (lookup m id) as [o|] eqn:E; [|congruence].
+  apply lookup_In in E. apply in_map_iff. exists (id, o). split; [reflexivity | exact E].
+Qed.
+
+Lemma numbered_ofheight m f f' m' : numbered m f f' m' -> ofheight f' = fheight f.
+Proof.
+  induction 1 as [m | m b d ks ks' m1 rest rest' m2 H1 IH1 H2 IH2]; [reflexivity|].
+  rewrite ofheight_cons, oheight_node, fheight_cons, iheight_node. congruence.
+Qed.
+
 (* ---------- hypotheses of the read-back clause ---------- *)
 (* "Current maximum object id within the document" *)
 Definition max_id_bounds (d : doc) : Prop := forall id o, lookup (d_objects d) id = Some o -> fst id <= d_max_id d.
@@ -141,6 +164,122 @@ Proof.
   apply title_bytes_inj; [exact (Hs _ Hx) | exact (Hs _ Hy)].
 Qed.
 
+(* ---------- a document that holds the outline of a numbered forest, ready for get_toc ---------- *)
+Definition holds_outline (d : doc) (root : N) (f' : list otree) : Prop :=
+  exists cat,
+    catalog d = Some cat /\ dict_get cat K_Outlines = Some (ORef root 0) /\ no_name_trees cat /\
+    outline_ok (get_of (d_objects d)) root f' /\ f' <> [] /\
+    (ofsize f' <= S (length (d_objects d)))%nat.
+
+Lemma toc_of_holds d root f' fuel :
+  holds_outline d root f' ->
+  (ofsize f' <= fuel)%nat ->
+  N.of_nat (ofheight f') <= OUTLINE_DEPTH_LIMIT + 1 ->
+  NoDup (map row_key (flat_map (orows 1) f')) ->
+  Forall (row_ok (get_pages d)) (flat_map (orows 1) f') ->
+  get_toc fuel d = TOk (map (entry_of (get_pages d)) (flat_map (orows 1) f')) 0.
+Proof.
+  intros [cat [H1 [H2 [H3 [H4 [H5 H6]]]]]] Hfuel Hdeep Hnd Hrows.
+  apply (toc_of_outline d cat root f' fuel); assumption.
+Qed.
+
+(* build_outline + attach produce such a document *)
+Theorem build_holds b f cid rid cat fuel :
+  bookmarks b = map iid f -> f <> [] ->
+  Forall (trepr (bookmark_table b)) f ->
+  let d := base b in
+  let m0 := d_max_id d in
+  let m' := m0 + 1 + 2 * N.of_nat (fsize f) in
+  max_id_bounds d ->
+  m' < U32_LIMIT ->
+  root_id d = Some cid ->
+  get_object_mut_id (d_objects d) cid = Some (rid, ODict cat) ->
+  no_name_trees cat ->
+  (fheight f <= fuel)%nat ->
+  exists b' f',
+    numbered (m0 + 1) f f' m' /\
+    build_outline fuel b = OOk (Some (m0 + 1, 0), b') /\
+    holds_outline (attach (base b') cid (m0 + 1, 0)) (m0 + 1) f'.
+Proof.
+  intros Hroots Hne Htr d m0 m' Hmax Hlim Hroot Hcat Hnn Hfuel.
+  destruct (build_outline_ok b f fuel Hroots Hne Htr Hfuel Hlim)
+    as [f' [b' [Hnum [Hbuild [Hmax' [Htrailer [Hok [Hframe Hcreated]]]]]]]].
+  fold d m0 in Hnum, Hbuild, Hmax', Hframe, Hcreated, Hok. fold m' in Hnum, Hmax', Hframe, Hcreated.
+  exists b', f'. split; [exact Hnum|]. split; [exact Hbuild|].
+  set (d2 := attach (base b') cid (m0 + 1, 0)).
+  set (d1 := base b') in *.
+  (* the old objects are still there *)
+  assert (Hext : extends (d_objects d) (d_objects d1)).
+  { intros id o Hl. rewrite Hframe; [exact Hl|]. intros [Hc _]. apply Hmax in Hl. fold m0 in Hl. lia. }
+  assert (Hroot1 : root_id d1 = Some cid) by (unfold root_id in *; rewrite Htrailer; exact Hroot).
+  assert (Hcat1 : get_object_mut_id (d_objects d1) cid = Some (rid, ODict cat)).
+  { unfold get_object_mut_id in *. destruct (lookup (d_objects d) cid) as [o|] eqn:E; [|discriminate].
+    rewrite (Hext _ _ E). unfold dereference in *.
+    destruct (deref_aux (d_objects d) (N.to_nat Gen.Consts.DEREF_LIMIT) None o) as [r|] eqn:D; [|discriminate].
+    rewrite (deref_extends _ _ Hext _ _ _ _ D). exact Hcat. }
+  destruct (attach_catalog d cid rid cat (m0 + 1, 0) Hroot Hcat) as [_ [_ Hrid]].
+  destruct (attach_catalog d1 cid rid cat (m0 + 1, 0) Hroot1 Hcat1) as [Hatt [Hcatalog _]].
+  fold d2 in Hatt, Hcatalog.
+  assert (Hrid_old : fst rid <= m0) by (apply (Hmax _ _ Hrid)).
+  (* the outline objects are untouched by attach *)
+  assert (Hlk2 : forall k, m0 < k -> lookup (d_objects d2) (k, 0) = lookup (d_objects d1) (k, 0)).
+  { intros k Hk. rewrite Hatt. cbn [d_objects set_objects]. rewrite lookup_insert.
+    rewrite oid_eqb_neq; [reflexivity|]. intro X. subst rid. cbn [fst] in Hrid_old. lia. }
+  assert (Hget2 : forall k, m0 < k -> get_of (d_objects d2) k = get_of (d_objects d1) k).
+  { intros k Hk. unfold get_of. rewrite Hlk2 by exact Hk. reflexivity. }
+  (* the reference budget of get_outlines (= number of objects) covers the items *)
+  assert (Hcount : (2 * fsize f <= length (d_objects d2))%nat).
+  { pose proof (numbered_oids _ _ _ _ Hnum) as Eo.
+    replace (2 * fsize f)%nat with (length (map (fun k : N => (k, 0)) (flat_map oids f')))
+      by (rewrite map_length, Eo; clear; generalize (m0 + 1 + 1); induction (2 * fsize f)%nat; intro s; cbn [nseq length]; [reflexivity | rewrite IHn; reflexivity]).
+    apply length_ge_ids.
+    - apply NoDup_map_in; [intros x y _ _ E; inversion E; reflexivity|]. rewrite Eo. apply nseq_NoDup.
+    - intros id Hin. apply in_map_iff in Hin. destruct Hin as [k [<- Hk]].
+      pose proof (numbered_range _ _ _ _ k Hnum Hk) as Hr.
+      rewrite Hlk2 by lia. destruct (Hcreated (k, 0)) as [dk Hdk]; [split; cbn [fst snd]; [lia | reflexivity]|].
+      rewrite Hdk. discriminate. }
+  exists (cat_with cat (m0 + 1, 0)).
+  split; [exact Hcatalog|].
+  split; [unfold cat_with; rewrite dict_get_set, bytes_eqb_refl; reflexivity|].
+  split.
+  { destruct Hnn as [H1 H2]. unfold cat_with. split; rewrite dict_get_set.
+    + change (bytes_eqb K_Outlines K_Dests) with false. exact H1.
+    + change (bytes_eqb K_Outlines K_Names) with false. exact H2. }
+  split.
+  { destruct Hok as [Hitems [od Hod]]. constructor.
+    - eapply items_ok_ext; [exact Hitems|]. intros k Hk. apply Hget2.
+      pose proof (numbered_range _ _ _ _ k Hnum Hk). lia.
+    - exists od. rewrite Hget2 by lia. exact Hod. }
+  split.
+  { intro X. apply numbered_length in Hnum. rewrite X in Hnum. destruct f; [congruence | discriminate]. }
+  rewrite (numbered_ofsize _ _ _ _ Hnum). lia.
+Qed.
+
+(* the conditions of get_toc that depend on the titles and the height, on the numbered forest *)
+Lemma numbered_conditions m f f' m' fuel2 :
+  numbered m f f' m' ->
+  distinct_titles f -> scalar_titles f ->
+  N.of_nat (fheight f) <= OUTLINE_DEPTH_LIMIT + 1 ->
+  (fsize f <= fuel2)%nat ->
+  flat_map (orows 1) f' = preorder f /\
+  (ofsize f' <= fuel2)%nat /\
+  N.of_nat (ofheight f') <= OUTLINE_DEPTH_LIMIT + 1 /\
+  NoDup (map row_key (flat_map (orows 1) f')).
+Proof.
+  intros Hnum Hdist Hscal Hdeep Hfuel2.
+  pose proof (numbered_rows _ _ _ _ Hnum 1) as Hrows. fold (preorder f) in Hrows.
+  split; [exact Hrows|].
+  split; [rewrite (numbered_ofsize _ _ _ _ Hnum); exact Hfuel2|].
+  split; [rewrite (numbered_ofheight _ _ _ _ Hnum); exact Hdeep|].
+  rewrite Hrows. apply keys_distinct; assumption.
+Qed.
+
+Lemma rows_ok d f : scalar_titles f -> targets_are_pages d f -> Forall (row_ok (get_pages d)) (preorder f).
+Proof.
+  unfold scalar_titles, targets_are_pages. rewrite !Forall_forall.
+  intros Hs Ht r Hr. split; [exact (Hs r Hr) | exact (Ht r Hr)].
+Qed.
+
 (* ---------- main theorem over a represented forest ---------- *)
 Theorem reads_back_forest b f cid rid cat fuel fuel2 :
   bookmarks b = map iid f -> f <> [] ->
@@ -153,6 +292,7 @@ Theorem reads_back_forest b f cid rid cat fuel fuel2 :
   get_object_mut_id (d_objects d) cid = Some (rid, ODict cat) ->
   no_name_trees cat ->
   distinct_titles f -> scalar_titles f ->
+  N.of_nat (fheight f) <= OUTLINE_DEPTH_LIMIT + 1 ->
   (fheight f <= fuel)%nat ->
   (fsize f <= fuel2)%nat ->
   exists b',
@@ -160,51 +300,15 @@ Theorem reads_back_forest b f cid rid cat fuel fuel2 :
     let d2 := attach (base b') cid (m0 + 1, 0) in
     (targets_are_pages d2 f -> get_toc fuel2 d2 = TOk (expected_toc d2 f) 0).
 Proof.
-  intros Hroots Hne Htr d m0 Hmax Hlim Hroot Hcat Hnn Hdist Hscal Hfuel Hfuel2.
-  destruct (build_outline_ok b f fuel Hroots Hne Htr Hfuel Hlim)
-    as [f' [b' [Hnum [Hbuild [Hmax' [Htrailer [Hok [Hframe Hcreated]]]]]]]].
-  fold d m0 in Hnum, Hbuild, Hmax', Hframe, Hcreated, Hok.
+  intros Hroots Hne Htr d m0 Hmax Hlim Hroot Hcat Hnn Hdist Hscal Hdeep Hfuel Hfuel2.
+  destruct (build_holds b f cid rid cat fuel Hroots Hne Htr Hmax Hlim Hroot Hcat Hnn Hfuel)
+    as [b' [f' [Hnum [Hbuild Hholds]]]].
+  fold d m0 in Hnum, Hbuild, Hholds.
   exists b'. split; [exact Hbuild|]. intros d2 Htargets.
-  set (m' := m0 + 1 + 2 * N.of_nat (fsize f)) in *.
-  set (d1 := base b') in *.
-  (* the old objects are still there *)
-  assert (Hext : extends (d_objects d) (d_objects d1)).
-  { intros id o Hl. rewrite Hframe; [exact Hl|]. intros [Hc _]. apply Hmax in Hl. lia. }
-  assert (Hroot1 : root_id d1 = Some cid) by (unfold root_id in *; rewrite Htrailer; exact Hroot).
-  assert (Hcat1 : get_object_mut_id (d_objects d1) cid = Some (rid, ODict cat)).
-  { unfold get_object_mut_id in *. destruct (lookup (d_objects d) cid) as [o|] eqn:E; [|discriminate].
-    rewrite (Hext _ _ E). unfold dereference in *.
-    destruct (deref_aux (d_objects d) (N.to_nat Gen.Consts.DEREF_LIMIT) None o) as [r|] eqn:D; [|discriminate].
-    rewrite (deref_extends _ _ Hext _ _ _ _ D). exact Hcat. }
-  destruct (attach_catalog d cid rid cat (m0 + 1, 0) Hroot Hcat) as [_ [_ Hrid]].
-  destruct (attach_catalog d1 cid rid cat (m0 + 1, 0) Hroot1 Hcat1) as [Hatt [Hcatalog _]].
-  fold d2 in Hatt, Hcatalog.
-  assert (Hrid_old : fst rid <= m0) by (apply (Hmax _ _ Hrid)).
-  (* the outline objects are untouched by attach *)
-  assert (Hget2 : forall k, m0 < k -> get_of (d_objects d2) k = get_of (d_objects d1) k).
-  { intros k Hk. unfold get_of. rewrite Hatt. cbn [d_objects set_objects]. rewrite lookup_insert.
-    rewrite oid_eqb_neq; [reflexivity|]. intro X. subst rid. cbn [fst] in Hrid_old. lia. }
-  assert (Hok2 : outline_ok (get_of (d_objects d2)) (m0 + 1) f').
-  { destruct Hok as [Hitems [od Hod]]. constructor.
-    - eapply items_ok_ext; [exact Hitems|]. intros k Hk. apply Hget2.
-      pose proof (numbered_range _ _ _ _ k Hnum Hk). lia.
-    - exists od. rewrite Hget2 by lia. exact Hod. }
-  assert (Hne' : f' <> []).
-  { intro X. apply numbered_length in Hnum. rewrite X in Hnum. destruct f; [congruence | discriminate]. }
-  pose proof (numbered_rows _ _ _ _ Hnum 1) as Hrows. fold (preorder f) in Hrows.
+  destruct (numbered_conditions _ _ _ _ fuel2 Hnum Hdist Hscal Hdeep Hfuel2) as [Hrows [C1 [C2 C3]]].
   unfold expected_toc. rewrite <- Hrows.
-  apply (toc_of_outline d2 (cat_with cat (m0 + 1, 0)) (m0 + 1) f' fuel2).
-  - exact Hcatalog.
-  - unfold cat_with. rewrite dict_get_set, bytes_eqb_refl. reflexivity.
-  - destruct Hnn as [H1 H2]. unfold cat_with. split; rewrite dict_get_set.
-    + change (bytes_eqb K_Outlines K_Dests) with false. exact H1.
-    + change (bytes_eqb K_Outlines K_Names) with false. exact H2.
-  - exact Hok2.
-  - exact Hne'.
-  - rewrite (numbered_ofsize _ _ _ _ Hnum). exact Hfuel2.
-  - rewrite Hrows. apply keys_distinct; assumption.
-  - rewrite Hrows. unfold scalar_titles, targets_are_pages in *. rewrite Forall_forall in *.
-    intros r Hr. split; [exact (Hscal r Hr) | exact (Htargets r Hr)].
+  apply (toc_of_holds d2 (m0 + 1) f' fuel2 Hholds C1 C2 C3).
+  rewrite Hrows. apply rows_ok; assumption.
 Qed.
 
 (* no root bookmark: nothing is built *)
@@ -223,13 +327,14 @@ Theorem reads_back_ops d ops cid rid cat fuel2 :
   get_object_mut_id (d_objects d) cid = Some (rid, ODict cat) ->
   no_name_trees cat ->
   distinct_titles f -> scalar_titles f ->
+  N.of_nat (fheight f) <= OUTLINE_DEPTH_LIMIT + 1 ->
   (fsize f <= fuel2)%nat ->
   exists b',
     build_outline (default_fuel b) b = OOk (Some (m0 + 1, 0), b') /\
     let d2 := attach (base b') cid (m0 + 1, 0) in
     (targets_are_pages d2 f -> get_toc fuel2 d2 = TOk (expected_toc d2 f) 0).
 Proof.
-  intros b f m0 Hne Hmax Hlim Hroot Hcat Hnn Hdist Hscal Hfuel2.
+  intros b f m0 Hne Hmax Hlim Hroot Hcat Hnn Hdist Hscal Hdeep Hfuel2.
   destruct (add_all_repr d ops) as [Hbase [Hroots [Htr Hdf]]]. fold b f in Hbase, Hroots, Htr, Hdf.
   rewrite Hdf.
   pose proof (reads_back_forest b f cid rid cat (S (length ops)) fuel2 Hroots Hne Htr) as H.
